@@ -175,7 +175,7 @@ func familyKindsExt(family string) []string {
 		return StakeKinds
 	case "alleg":
 		return AllegKinds
-	case "eth":
+	case "eth", "eth5":
 		return EthKinds
 	case "stake":
 		return StakeKinds
